@@ -351,6 +351,19 @@ class Engine:
                 return F
         if k == 'un' and e[1] == 'not':
             return f_not(self._b(e[2], True))
+        # bool(x) is the truth value of x; for a Python object with a length (a name part, a list of fields ...) so is `len(x) > 0`
+        if k == 'call' and e[1] == ('name', 'bool') and len(e[2]) == 1 and not e[3] and not self.may_be_signal(e[2][0]):
+            return self._b(e[2][0], True)
+        if k == 'cmp' and e[1] in ('<', '!=', '>', '>=', '<=', '=='):
+            for a_, b_, op_ in ((e[2], e[3], e[1]), (e[3], e[2], {'<': '>', '>': '<', '<=': '>=', '>=': '<=', '!=': '!=', '==': '=='}[e[1]])):
+                # a_ op_ b_ with a_ == len(X)
+                if a_[0] == 'call' and a_[1] == ('name', 'len') and len(a_[2]) == 1 and not self.may_be_signal(a_[2][0]) and \
+                        b_[0] == 'const' and isinstance(b_[1], int) and not isinstance(b_[1], bool):
+                    nonempty = (op_, b_[1]) in (('>', 0), ('!=', 0), ('>=', 1))
+                    empty = (op_, b_[1]) in (('==', 0), ('<', 1), ('<=', 0))
+                    if nonempty or empty:
+                        f_ = self._b(a_[2][0], True)
+                        return f_ if nonempty else f_not(f_)
         if k == 'and':
             return f_and(*[self._b(x, True) for x in e[1]])
         if k == 'or':
@@ -758,6 +771,10 @@ class Engine:
                             groups.setdefault(('dflt', e[1]), [a]).append(b)
                         elif eb is not None and eb[0] == 'cmp' and eb[1] == '==' and eb[2] == subj_n and eb[3] in own_consts:
                             groups.setdefault(('dflt', e[1]), [a]).append(b)
+            elif e[0] == 'call' and e[1] == ('name', 'isinstance') and len(e[2]) == 2 and e[2][1][0] == 'name' and \
+                    e[2][1][1] in ('str', 'int', 'list', 'dict', 'tuple', 'set', 'frozenset', 'range', 'float', 'bytes'):
+                # an object is an instance of at most one of these built-in types (bool is an int and is not listed on its own)
+                groups.setdefault(('isinstance', ir.show(e[2][0])), []).append(a)
             elif e[0] == 'cmp' and e[1] == '==':
                 lhs, rhs = e[2], e[3]
                 if rhs[0] in ('const', 'enum') and lhs[0] not in ('const', 'enum'):
